@@ -115,7 +115,7 @@ def cache_put(key, val):
     os.replace(tmp, p)
     # keep the cache small
     ents = sorted(glob.glob(os.path.join(CACHE, "*.json")), key=os.path.getmtime)
-    for old in ents[:-40]:
+    for old in ents[:-600]:
         try:
             os.remove(old)
         except OSError:
